@@ -14,7 +14,7 @@ Ops
 * `f <frame>`                           one more frame on the socket of the last connection
 * `eos`                                 the socket of the last connection ends
 * frames: `upd sym U u pu | p:a … | p:a …` (text), `bin sym U u pu | … | …` (binary), `bad i` (undeserialisable
-  text), `ping`, `pong`, `raw`, `close`, `err kind`
+  text), `binbad i` (undeserialisable Binary payload; `i % 9 = 8`: bytes that are not UTF-8), `ping`, `pong`, `raw`, `close`, `err kind`
 
 * `depth k n`                           the REST snapshots of instrument `k` hold the best `n` levels per side only (the code's
                                         fetchers request `limit=100`): from then on every observation also carries, after the
@@ -138,6 +138,9 @@ def parseFrame? : List String → Option Frame
     | some _ => some (.ok (.binary (utf8Bytes (" ".intercalate ("upd" :: rest)))))
     | none => none
   | ["bad", i] => i.toNat?.map fun i => .ok (.text ("bad " ++ toString i))
+  -- a Binary frame that does not deserialise: some bad text's bytes, or (i % 9 = 8) bytes that are not UTF-8
+  | ["binbad", i] => i.toNat?.map fun i =>
+      .ok (.binary (if i % 9 == 8 then [0xff, 0xfe, 0x7b] else utf8Bytes ("bad " ++ toString i)))
   | ["ping"] => some (.ok (.ping []))
   | ["pong"] => some (.ok (.pong []))
   | ["raw"] => some (.ok (.frame []))
